@@ -141,6 +141,9 @@ def layout_case(seed, text=None):
             odd = rnd.choice(['\x0c', '\x0b', '\x1c', '\x1d', '\x1e', '\x85', '\u2028', '\u2029', '\r'])
             k = rnd.randint(0, len(lines0))
             lines0.insert(k, rnd.choice([f"# a comment with {odd} inside", f"odd{rnd.randint(0, 9)} = 'a{odd}b'", f'probe(700, "x{odd}")']))
+        if rnd.random() < 0.2:
+            # async function headers are function headers (also when indented by a rewrite)
+            lines0 = [('async ' + ln if ln.startswith('function ') and rnd.random() < 0.7 else ln) for ln in lines0]
         if rnd.random() < 0.25:
             # consecutive include statements form ONE statement - also with blank lines, comments or continuations between them
             incs = [rnd.choice(["include 'a.bare'", "include 'lib/b c.bare'", 'include <sys.bare>', "include 'a.bare'"]) for _ in range(rnd.randint(2, 4))]
